@@ -192,6 +192,25 @@ func c09Resume(c *hx.Ctx) []*scenario {
 		&scenario{name: "resume/clean-second", steps: cat(first, opening(cfgDefault, 6, false), []step{sPub(7, 1), sB(&packet.Puback{ID: 1}), sWaitFut(7), sDisc(8, false)})},
 		&scenario{name: "resume/denied-second", steps: cat(first, []step{sNew(cfg), sConnect(6, cfg), sConnack(false, 5), sWaitFut(6), sIdle()}, opening(cfg, 7, true), []step{sDisc(8, false)})},
 	)
+	// what is stored at the resume: a PUBREL only; PUBLISH q2, PUBREL, PUBLISH q1; PUBREL, PUBLISH q1, PUBLISH q2
+	stored := map[string][]step{
+		"pubrel-only":      {sPub(2, 2), sB(&packet.Pubrec{ID: 1}), sIdle()},
+		"q2-pubrel-q1":     {sPub(2, 2), sPub(3, 2), sB(&packet.Pubrec{ID: 2}), sIdle(), sPub(4, 1)},
+		"pubrel-q1-q2":     {sPub(2, 2), sB(&packet.Pubrec{ID: 1}), sIdle(), sPub(3, 1), sPub(4, 2)},
+		"q1-q2-pubrel-sub": {sPub(2, 1), sPub(3, 2), sPub(4, 2), sB(&packet.Pubrec{ID: 3}), sIdle(), sSub(5, 1)},
+	}
+	for _, name := range []string{"pubrel-only", "q2-pubrel-q1", "pubrel-q1-q2", "q1-q2-pubrel-sub"} {
+		out = append(out,
+			&scenario{name: "resume/stored-" + name, steps: cat(opening(cfg, 1, false), stored[name], []step{sDrop(), sIdle()},
+				opening(cfg, 6, true), []step{sIdle(), sDisc(7, false)})},
+			// twice: the second resume retransmits again (DUP already set on the stored PUBLISH)
+			&scenario{name: "resume/stored-" + name + "-twice", steps: cat(opening(cfg, 1, false), stored[name], []step{sDrop(), sIdle()},
+				opening(cfg, 6, true), []step{sIdle(), sDrop(), sIdle()}, opening(cfg, 7, true), []step{sIdle(), sClose(8)})},
+			// clean session on the second connect: nothing may be left to retransmit
+			&scenario{name: "resume/stored-" + name + "-then-clean", steps: cat(opening(cfg, 1, false), stored[name], []step{sDrop(), sIdle()},
+				opening(cfgDefault, 6, false), []step{sIdle(), sDisc(7, false)})},
+		)
+	}
 	for k := 2; k <= 5; k++ {
 		out = append(out, &scenario{name: fmt.Sprintf("resume/resend-fails@%d", k), failAt: map[string]int{"send": 7 + k},
 			steps: cat(first, opening(cfg, 6, true), []step{sIdle()}, opening(cfg, 7, true), []step{sDisc(8, false)})})
